@@ -13,7 +13,7 @@ LEVEL = "exploration"
 SHARDS = {"quick": 16, "thorough": 16}
 RULE = (
     "Hypothesis generates call trees over 2-7 memento functions (bodies are sequences of: direct call, repeated call, call_batch with duplicates, call expected to raise "
-    "(caught or not), file_resource and a custom resource function) and, per tree, optionally one injected read error on a memoized sub-call (so that it is found in the store by the runner itself rather than by the batch pre-check), all 2^n subsets of the n distinct sub-calls memoized beforehand for n <= 6 (sampled above). "
+    "(caught or not), file_resource and a custom resource function; any action may be conditional on the parity of the argument, so that one function version reaches different functions for different arguments, and a node may call itself recursively down to 0; a body may contain a pause point at which ANOTHER thread makes an unrelated top-level memento call, which must not appear in this body's record) and, per tree, optionally one injected read error on a memoized sub-call (so that it is found in the store by the runner itself rather than by the batch pre-check), all 2^n subsets of the n distinct sub-calls memoized beforehand for n <= 6 (sampled above). "
     "Oracle: a side-channel trace of what each body actually did. For the root and every inner call that has a memento: invocations == the calls made directly, in order, "
     "as (qualified name, arg hash); resources == handles obtained, in order; function_dependencies == versions of all functions invoked transitively beneath it plus itself; "
     "and the record is identical for every subset. Non-trivial = tree with a repeated, batched or failing sub-call and a subset that is neither empty nor full; "
@@ -21,7 +21,7 @@ RULE = (
 )
 ASSUMPTIONS = [
     "functions carry explicit versions, so dynamic dispatch through a table is allowed by the library (no dependency validation)",
-    "single thread; local runner; no context arguments (C16 covers them)",
+    "local runner; no context arguments (C16 covers them); the only concurrency is one unrelated call from a second thread at a harness-chosen pause point of a body (interleavings are C09's subject)",
     "a sub-call is 'memoized beforehand' by calling it at top level and forgetting every other call again",
 ]
 MANIFEST = {
@@ -81,11 +81,58 @@ def _record_of(mem):
     }
 
 
+def _same_fn_diff(exp):
+    """does some body call one function with two arguments whose recorded sub-calls differ?"""
+    for e in exp.values():
+        by_fn = {}
+        for fn, arg in e["direct"]:
+            by_fn.setdefault(fn, set()).add(arg)
+        for fn, args in by_fn.items():
+            shapes = {tuple(c[0] for c in exp.get((fn, a), {"direct": []})["direct"]) for a in args}
+            if len(shapes) > 1:
+                return True
+    return False
+
+
 def _call(fn, x):
     try:
         trees.FUNCS[fn](x)
     except Exception:
         pass
+
+
+_tx = [1000]
+
+
+def _call_root(prog, x0, labels):
+    """
+    Calls t0(x0). If the tree has a pause point, the call runs in its own thread and, the first time a body reaches a
+    pause point, this (other) thread makes an unrelated top-level memento call before the body is allowed to continue.
+    """
+    import threading
+    if not any(a["a"] == "pause" for acts in prog["nodes"].values() for a in acts):
+        return _call("t0", x0)
+    reached, resume, fired = threading.Event(), threading.Event(), [False]
+
+    def hook():
+        if not fired[0]:
+            fired[0] = True
+            reached.set()
+            resume.wait(60)
+    trees.STATE["pause_hook"] = hook
+    th = threading.Thread(target=_call, args=("t0", x0))
+    th.start()
+    try:
+        while th.is_alive() and not reached.wait(0.005):
+            pass
+        if reached.is_set():
+            _tx[0] += 1
+            trees.tx(_tx[0])
+            labels.append("unrelated-call-from-other-thread-during-body")
+    finally:
+        resume.set()
+        th.join()
+        trees.STATE["pause_hook"] = None
 
 
 def _fresh(case, d, name):
@@ -139,7 +186,8 @@ def execute(case, scratch):
         # reference: everything computed
         _fresh(case, d, "ref")
         trees.begin(prog, files)
-        _call("t0", x0)
+        conc = []
+        _call_root(prog, x0, conc)
         trace = trees.take_trace()
         exp = _expectations(trace)
         root = ("t0", x0)
@@ -185,7 +233,7 @@ def execute(case, scratch):
                         return orig(mem)
 
                     st.read_result = faulty
-                _call("t0", x0)
+                _call_root(prog, x0, conc)
                 ran = [(r["node"], r["x"]) for r in trees.take_trace()]
                 for c in chosen:
                     if c in ran:
@@ -197,8 +245,11 @@ def execute(case, scratch):
                 if out.violations:
                     break
         out.nontrivial = special and nt
-        out.labels = ["n:%d" % min(n, 8), "backend:" + case["backend"]] + (["special"] if special else []) + \
-            (["exhaustive-subsets"] if n <= 6 else ["sampled-subsets"]) + (["read-fault"] if case.get("read_fault") else [])
+        out.labels = sorted(set(conc)) + ["n:%d" % min(n, 8), "backend:" + case["backend"]] + (["special"] if special else []) + \
+            (["exhaustive-subsets"] if n <= 6 else ["sampled-subsets"]) + (["read-fault"] if case.get("read_fault") else []) + \
+            (["arg-dependent"] if any(a.get("when") in ("even", "odd") for acts in prog["nodes"].values() for a in acts) else []) + \
+            (["self-recursive"] if any(a.get("when") == "pos" for acts in prog["nodes"].values() for a in acts) else []) + \
+            (["same-fn-different-subtrees"] if _same_fn_diff(exp) else [])
         out.excluded = 0
         out.nt_key = [prog, x0]
         out.render = {"program": prog, "x": x0, "distinct_subcalls": n, "subsets_run": nsub}
@@ -221,7 +272,7 @@ def strategy(thorough):
     from hypothesis import strategies as st
     return st.builds(
         lambda p, x, b, subs, rf: {"program": p, "x": x, "backend": b, "subsets": subs, "max_exhaustive": 6, "read_fault": rf},
-        trees.program_strategy(with_ctx=False, max_nodes=7 if thorough else 5), st.integers(0, 2),
+        trees.program_strategy(with_ctx=False, max_nodes=7 if thorough else 5, argdep=True), st.integers(0, 3),
         st.sampled_from(["mem", "mem", "fs", "fsc"]),
         st.lists(st.lists(st.integers(0, 11), max_size=8, unique=True), max_size=12 if thorough else 5),
         st.booleans())
